@@ -483,7 +483,7 @@ func runC05(w *World, r *Report) {
 		if !isK || k != K || !strings.HasSuffix(pathOf(bo.X), ".SupplementaryCurrency") {
 			continue
 		}
-		preds = append(preds, fn.Object().(*types.Func).FullName())
+		preds = append(preds, refFuncFullName(fn.Object().(*types.Func)))
 		r.ok("canonicality-predicate", shortFn(fn), w.Pos(fn.Pos()), "true ⇔ supplementary < 10^18")
 	}
 	if len(preds) == 0 {
@@ -566,7 +566,7 @@ func dagWriters(w *World) map[string]bool {
 		instrsOf(fn, func(in ssa.Instruction) {
 			if c, ok := in.(*ssa.Call); ok {
 				if op, m, id, ok := lockOp(c); ok && op == "lock" && m == "W" && id == "dag.DAG.muDAG" {
-					out[fn.Object().(*types.Func).FullName()] = true
+					out[refFuncFullName(fn.Object().(*types.Func))] = true
 				}
 			}
 		})
